@@ -1,7 +1,7 @@
 """HLL rules (C03, C04): register max-store discipline, merge loops, nibble decode agreement, successor-local rule,
 coupon constants, mode byte inverse; union: refresh discipline (A6), lg_k rule, replace-only-if-empty, take-over guard."""
 import json
-from astu import C, ctxt, gt_pair, eq_const, reach, reach_txt, ctext, strip, strip_all, walk, walkp, txt, short, is_this_field, field_name, stmts_of, always_throws, functions_by, local_decls
+from astu import single_assignment_locals, C, ctxt, gt_pair, eq_const, reach, reach_txt, ctext, strip, strip_all, walk, walkp, txt, short, is_this_field, field_name, stmts_of, always_throws, functions_by, local_decls
 from vlib.core import ob
 
 DERIVED = ("curMin_", "numAtCurMin_", "kxq0_", "kxq1_")
@@ -22,15 +22,15 @@ def register_stores(facts):
             continue
         base = "%s::%s" % (short(rect), fn["name"])
         idx = [0]
-        inl = {d: v["init"] for d, v in local_decls(fn).items() if v.get("init") is not None}
+        inl = single_assignment_locals(fn)
 
         def is_store(n):
             if n.get("k") == "Assign" and n.get("op") == "=":
                 l = strip(n["l"])
                 if l.get("k") in ("Index", "OpCall") and "hllByteArr_" in txt(l):
-                    return txt(l), n["r"]
+                    return txt(l, inl), n["r"]
             if n.get("k") == "Call" and n.get("cname") == "putSlot" and len(n.get("args", [])) == 2:
-                return "slot(%s)" % txt(n["args"][0]), n["args"][1]
+                return "slot(%s)" % txt(n["args"][0], inl), n["args"][1]
             return None
 
         def visit(n, parents):
@@ -41,26 +41,17 @@ def register_stores(facts):
             key = "%s:store#%d" % (base, idx[0])
             idx[0] += 1
             v = strip_all(val)
-            if v.get("k") == "Call" and (v.get("callee") or "").startswith("std::max") and any(txt(a) == target for a in v.get("args", [])):
+            if v.get("k") == "Call" and (v.get("callee") or "").startswith("std::max") and any(txt(a, inl) == target for a in v.get("args", [])):
                 out.append(ob("hll.max-store", key, n["loc"], "discharged", "register := max(register, new)", fn["qname"]))
                 return
-            # guarded by `new > cur` (then-branch) somewhere up the parent chain
-            guards = []
-            chain = list(parents) + [n]
-            for i, p in enumerate(chain[:-1]):
-                if p.get("k") == "If" and p.get("t") is chain[i + 1]:
-                    guards.append(p["c"])
+            # `new > cur` is known to hold at the store (nested if, guard clause `if (new <= cur) return;`, && chain alike)
             ok = False
-            for g in guards:
-                g = strip(g)
-                if g.get("k") == "Bin" and g.get("op") == ">":
-                    l, r = txt(g["l"]), txt(g["r"], inl)
-                    # left is the new value (a parameter or a value extracted from the coupon); right reads the current slot
-                    if ("getSlot(" in r or "hllByteArr_[" in r or "curMin_" in r or "mustFindValueFor" in r) and ("hllByteArr_" not in l and "getSlot" not in l):
-                        ok = True
-                if g.get("k") == "Bin" and g.get("op") == "<":
-                    l, r = txt(g["l"], inl), txt(g["r"])
-                    if ("getSlot(" in l or "hllByteArr_[" in l) and "hllByteArr_" not in r:
+            for g in reach(fn["body"], n):
+                gp = gt_pair(g)
+                if gp and gp[2]:
+                    big, small = txt(gp[0]), txt(gp[1], inl)
+                    # the greater side is the new value (a parameter or a value extracted from the coupon); the smaller reads the current slot
+                    if ("getSlot(" in small or "hllByteArr_[" in small or "curMin_" in small or "mustFindValueFor" in small) and ("hllByteArr_" not in txt(gp[0], inl) and "getSlot" not in txt(gp[0], inl)):
                         ok = True
             if ok:
                 out.append(ob("hll.max-store", key, n["loc"], "discharged", "store is control-dependent on new > current", fn["qname"]))
@@ -329,8 +320,15 @@ class Effects:
         return R
 
 
-def is_refresh_stmt(s):
-    """`X->check_rebuild_kxq_cur_min()` possibly under `if (X->getCurMode() == HLL)`"""
+def is_refresh_stmt(s, by_pat=None, depth=0):
+    """`X->check_rebuild_kxq_cur_min()` possibly under `if (X->getCurMode() == HLL)`; or a call of a member of the same class
+    whose own top-level statements contain such a statement (a wrapper that refreshes on all its paths)"""
+    if by_pat is not None and depth < 2 and s.get("k") == "Expr" and isinstance(strip(s.get("e")), dict) and strip(s["e"]).get("k") == "Call":
+        c = strip(s["e"])
+        cal = by_pat.get(c.get("cpat"))
+        if cal is not None and cal.get("body") is not None and c.get("cname") != "check_rebuild_kxq_cur_min" and (c.get("obj") is None or strip(c["obj"]).get("k") == "This"):
+            if any(is_refresh_stmt(x, by_pat, depth + 1) for x in stmts_of(cal["body"])):
+                return True
     hit = [False]
     walk(s, lambda n: hit.__setitem__(0, True) if n.get("k") == "Call" and n.get("cname") == "check_rebuild_kxq_cur_min" else None)
     if not hit[0]:
@@ -348,6 +346,7 @@ def union_refresh(facts):
     E = Effects(fns)
     out = []
     refreshers = {p for p, f in fns.items() if f["name"] == "check_rebuild_kxq_cur_min"}
+    by_pat = {f["pat"]: f for f in fns.values()}
     replay = {p for p, f in fns.items() if f["name"] in ("copyAs",)}
     for pat, fn in sorted(fns.items()):
         if fn.get("rect") != "datasketches::hll_union_alloc" or fn["kind"] in ("ctor", "dtor"):
@@ -356,7 +355,7 @@ def union_refresh(facts):
         refreshed_at = None
         idx = [0]
         for i, s in enumerate(st):
-            if refreshed_at is None and is_refresh_stmt(s):
+            if refreshed_at is None and is_refresh_stmt(s, by_pat):
                 refreshed_at = i
             obs_calls = []
 
@@ -616,14 +615,12 @@ def estimator_operands(facts):
                 idx[0] += 1
                 old, new = txt(n["args"][0]), txt(n["args"][1])
                 guard = None
-                chain = list(parents) + [n]
-                for i in range(len(chain) - 2, -1, -1):
-                    p = chain[i]
-                    if p.get("k") == "If" and p.get("t") is chain[i + 1]:
-                        gp = gt_pair(p["c"])
-                        if gp and gp[2] and txt(gp[0]) == new:
-                            guard = {"r": gp[1]}
-                            break
+                # the innermost `new > x` known to hold at the call (nested if or guard clause `if (new <= x) return;`)
+                for lit in reversed(reach(fn["body"], n)):
+                    gp = gt_pair(lit)
+                    if gp and gp[2] and txt(gp[0]) == new:
+                        guard = {"r": gp[1]}
+                        break
                 if guard is None:
                     out.append(ob("hll.estimator-operand", key, n["loc"], "violated", "the incremental estimator update is not guarded by `%s > <old value>`" % new, fn["qname"]))
                 elif txt(guard["r"]) == old:
